@@ -66,6 +66,10 @@ func stripNested(query string) string {
 // (renamed or removed locals) counts as a violation only when a failing input was reproduced on
 // the real code; otherwise the check could not decide (harmless refactorings must not alarm).
 func addViolation(violations, infra []string, line string, o *Obligation, u *Unit) ([]string, []string) {
+	if o.Status == "error" {
+		infra = append(infra, o.Name+": every back end rejected the generated query (defect of the generator, not a verdict): "+firstLines(o.Result.Output, 2))
+		return violations, infra
+	}
 	if u != nil && len(u.dropped) > 0 && !o.Reproduced {
 		infra = append(infra, o.Name+": not decided - loop clauses of the contract no longer apply ("+u.dropped[0]+") and no failing input was found")
 		return violations, infra
